@@ -809,6 +809,11 @@ def with_nodefault(rng: common.Rng, case) -> dict[str, Any]:
     allout = {v for d in case["discs"] for v in d["out"]}
     c["nodefault"] = [[v for v in d["in"] if v in allout and rng.chance(0.5)] for d in case["discs"]]
     c["mode"] = "mdainit"
+    if rng.chance(0.4):
+        # disciplines sharing a name (the property quantifies over duplicated discipline names): the order of
+        # initialization must treat them as distinct disciplines
+        c["discs"] = [dict(d, name=rng.pick(["A", "B"])) for d in case["discs"]]
+        c["dupnames"] = True
     return c
 
 
